@@ -6,14 +6,16 @@ def run(ctx):
     st = [dict(variant="asan", name="c10", sources=["checks/c10_interop.c", "harness/mx_wraps.c"], wraps=WRAPS,
                libs=["-lssl", "-lcrypto"], shards=vflib.NCPU, timeout=7200 if ctx.thorough else 900)]
     rule = ("Each case = one configuration run in a forked child: the sanitizer build of MatrixSSL on one end, OpenSSL 3 on the other, "
-            "over in-memory queues (byte stream re-chunked for TLS, datagram queue for DTLS). Tuple = (role mx-client|mx-server, version TLS1.1/1.2/1.3/DTLS1.0/1.2, "
-            "suite, server certificate type, first key share > final group (HelloRetryRequest when different), client-auth certificate type, "
-            "resumption mode none/session-id/RFC5077 ticket/TLS1.3 ticket PSK/TLS1.3 external PSK, extended master secret on/off, DTLS cookie on/off, payload plan). "
-            "Oracle: both stacks complete; identical version/suite/(1.3) group/EMS that equal the pinned ones; tagged payloads of the planned sizes "
-            "(1,100,16383,16384,16385,40000,200000 for TLS; 1,100,1000,1200 for DTLS) and bursts of 1..7-byte records round-trip bit-exact both ways; "
-            "after clean shutdown the second connection is resumed on both stacks' view and data round-trips again. "
-            "distinct_nontrivial = distinct configuration tuples that both stacks support and that completed all phases; configurations one stack cannot do are "
-            "counted under not_mutually_supported_<why> and are neither passes nor violations.")
+            "over in-memory queues (TLS byte stream delivered in reads of 3/17/1399/4096/16389 bytes or whole flights; datagram queue for DTLS); both stacks "
+            "use seeded randomness. Tuple = (role mx-client|mx-server, version TLS1.1/1.2/1.3/DTLS1.0/1.2, suite, server certificate type "
+            "RSA-2048/3072, RSA-PSS, ECDSA P-256/384/521, Ed25519, first key share > final group (HelloRetryRequest when different) over P-256/384/521/X25519/ffdhe, "
+            "client-auth certificate type, resumption mode none/session-id/RFC5077 ticket/TLS1.3 ticket PSK/TLS1.3 external PSK, extended master secret on/off, "
+            "DTLS cookie on/off, payload plan). Oracle: both stacks complete; identical version/suite/(1.3) group/EMS that equal the pinned ones; tagged payloads "
+            "of the planned sizes (1,100,16383,16384,16385,40000,200000 for TLS; 1,100,1000,1200 for DTLS) and bursts of 1..7-byte records round-trip bit-exact both ways; "
+            "after clean shutdown the second connection is resumed on both stacks' view and data round-trips again. quick = every (role,version,suite) plus one-factor "
+            "deviations per key-exchange family plus a few many-factor TLS 1.3 cases (seed-independent set); thorough = the full product. "
+            "evaluations = configurations executed against OpenSSL; distinct_nontrivial = distinct configuration tuples that both stacks support and that completed all "
+            "phases; configurations one stack cannot do are counted under not_mutually_supported_<why> and are neither passes nor violations.")
 
     def post(res):
         if ctx.replay:
